@@ -83,3 +83,116 @@ def _search(cases, fn):
 SEARCH['_checks:RoleCheck.__call__'] = _search(role_cases, role_case)
 SEARCH['_checks:GenericCheck.__call__'] = _search(generic_cases, generic_case)
 SEARCH['_checks:GenericCheck._find_in_dict'] = _search(generic_cases, generic_case)
+
+
+# ------------------------------------------------------------------ the leaf checks as enforce() reaches them (C04, C05)
+def _through_enforce(name, rule_text, cases, oracle):
+    """rule texts go through the real parser and Enforcer.enforce, once with the library's logger at DEBUG (the debug block
+    of enforce handles target and credentials too) and once at WARNING; oracle(text, target, creds) is the documented verdict"""
+    import logging
+    import warnings
+    from oslo_config import cfg
+    from oslo_policy import policy, opts
+    ev = 0
+    distinct = set()
+    viol = []
+    sample = []
+    log = logging.getLogger('oslo_policy.policy')
+    before, before_disable = log.level, logging.root.manager.disable
+    if not log.handlers:
+        log.addHandler(logging.NullHandler())
+    try:
+        for level in (logging.WARNING, logging.DEBUG):
+            logging.disable(logging.NOTSET if level == logging.DEBUG else logging.CRITICAL)
+            log.setLevel(level)
+            for text, target, creds in cases:
+                ev += 1
+                conf = cfg.ConfigOpts()
+                conf([], project='verif', default_config_files=[], default_config_dirs=[])
+                opts._register(conf)
+                e = policy.Enforcer(conf, use_conf=False)
+                e.set_rules(policy.Rules.load('{"p": %s}' % __import__('json').dumps(text)), use_conf=False)
+                want = oracle(text, target, creds)
+                try:
+                    with warnings.catch_warnings():
+                        warnings.simplefilter('ignore')
+                        got = bool(e.enforce('p', target, creds))
+                except Exception as ex:     # noqa
+                    got = 'raised %s' % type(ex).__name__
+                key = (text, _safe(target), _safe(creds), 'DEBUG' if level == logging.DEBUG else 'WARNING')
+                distinct.add(key)
+                if len(sample) < 3:
+                    sample.append({'case': key, 'result': got})
+                if got != want:
+                    viol.append({'key': key, 'detail': 'enforce of %r with target %s and credentials %s (logger at %s) decided %r, '
+                                                       'the documented reading gives %r' % (text, _safe(target), _safe(creds), key[3], got, want)})
+                    if len(viol) >= 3:
+                        raise StopIteration
+    except StopIteration:
+        pass
+    finally:
+        log.setLevel(before)
+        logging.disable(before_disable)
+    return {'name': name, 'evaluations': ev, 'distinct_nontrivial': len(distinct), 'rule': rule_text,
+            'exhaustive': True, 'samples': sample, 'violations': viol}
+
+
+def _role_oracle(text, target, creds):
+    match = text.split(':', 1)[1]
+    try:
+        m = match % target
+    except KeyError:
+        return False
+    return m.lower() in [r.lower() for r in creds.get('roles', [])]
+
+
+def c04(tier='quick', seed=0):
+    texts = ['role:admin', 'role:%(target.secret.required_role)s', 'role:%(target.token.role)s', 'role:%(password)s',
+             'role:%(api_key)s', 'role:%(r)s', 'role:%(auth_token)s-%(r)s']
+    targets = [{}, {'target.secret.required_role': 'keeper', 'r': 'x'}, {'target.token.role': 'Admin', 'password': 'admin'},
+               {'api_key': 'k1', 'auth_token': 'tok', 'r': 'admin'}, {'r': 'password=abc'}, {'password': '***', 'r': '***'}]
+    creds = [{'roles': []}, {'roles': ['keeper']}, {'roles': ['admin']}, {'roles': ['***']}, {'roles': ['k1', 'tok-admin']},
+             {'roles': ['password=abc']}, {'roles': ['ADMIN'], 'password': 'x', 'token': 'admin'}]
+    import itertools as _it
+    return _through_enforce('role check through enforce', 'role: rules (literal and placeholder forms whose target keys and values '
+                            'look like secrets: password, token, secret, api_key) x 6 targets x 7 credential sets, through '
+                            'Rules.load and Enforcer.enforce with the library logger at WARNING and at DEBUG',
+                            list(_it.product(texts, targets, creds)), _role_oracle)
+
+
+def _generic_oracle(text, target, creds):
+    kind, match = text.split(':', 1)
+    try:
+        m = match % target
+    except KeyError:
+        return False
+    import ast as _ast
+    try:
+        left = _ast.literal_eval(kind)
+        return m == str(left)
+    except Exception:   # noqa
+        pass
+    cur = [creds]
+    for seg in kind.split('.'):
+        nxt = []
+        for c in cur:
+            if isinstance(c, dict) and seg in c:
+                v = c[seg]
+                nxt.extend(v if isinstance(v, list) else [v])
+        cur = nxt
+    return any(m == str(v) for v in cur if not isinstance(v, (dict, list)))
+
+
+def c05(tier='quick', seed=0):
+    # left sides that equal a registered kind only up to letter case are attribute names like any other
+    texts = ['Role:admin', 'ROLE:admin', 'Rule:owner', 'RULE:p', 'Http:x', 'HTTPS:x', 'Role:%(r)s', 'rOle:None', 'roles:admin',
+             'user_id:%(user_id)s', 'token.secret:%(password)s', 'password:%(password)s', 'a.b:x', 'True:%(t)s']
+    targets = [{}, {'r': 'admin', 'user_id': 'u1', 'password': 'pw', 't': 'True'}]
+    creds = [{'roles': ['admin']}, {'Role': 'admin', 'ROLE': 'x', 'roles': []}, {'Rule': 'owner', 'RULE': 'p', 'roles': ['owner']},
+             {'Http': 'x', 'HTTPS': 'x', 'roles': []}, {'user_id': 'u1', 'password': 'pw', 'token': {'secret': 'pw'}, 'roles': ['x']},
+             {'rOle': None, 'a': {'b': 'x'}, 'roles': ['None']}]
+    import itertools as _it
+    return _through_enforce('generic check through enforce', 'attribute rules whose left side is a case variant of a registered kind '
+                            '(Role, ROLE, Rule, RULE, Http, HTTPS) or looks like a secret, x 2 targets x 6 credential sets, through '
+                            'Rules.load and Enforcer.enforce with the library logger at WARNING and at DEBUG',
+                            list(_it.product(texts, targets, creds)), _generic_oracle)
